@@ -377,9 +377,6 @@ Proof.
   - intros E T. apply H; auto.
 Qed.
 
-Lemma dv_deviate : forall id s, dv (deviate id s) = S (dv s).
-Proof. reflexivity. Qed.
-
 Section WithEx.
 Variable ex : node -> state -> state * outcome.
 Hypothesis Hex : forall nd s, Inv s (ex nd s).
@@ -537,7 +534,7 @@ Proof. reflexivity. Qed.
 (* handleThrow with the walk: as if the exception had been raised (purely) in the same state *)
 Lemma raiseE_inv' : forall inrec p s s1 s3 (K : Prop),
   dv s1 = dv s -> (dv s1 <= dv s3)%nat -> (fixed = true -> dv s3 = dv s1) -> (dv s3 = dv s1 -> K) ->
-  (K -> TopOK s -> Ext s s3 /\ ts s3 = ts s) -> GInv PostJ s (raise lim fixed ex inrec p s3).
+  (K -> TopOK s -> Ext s s3 /\ ts s3 = ts s) -> GInv PostJ s (raise lim ex inrec p s3).
 Proof.
   intros inrec p s s1 s3 K D A B C H. unfold raise, close_phase.
   (* the pure handleThrow applied to a state with s3's registers *)
@@ -577,28 +574,24 @@ Proof.
   - split; [|split]; simpl in *; [lia | intros F; rewrite B', Dm, B; auto | intros E; exfalso; apply C'; lia].
   - split; [|split]; simpl in *; [lia | intros F; rewrite B', Dm, B; auto | intros E; exfalso; apply C'; lia].
   - (* an uncatchable panic left a return() call *)
-    destruct (inrec && negb fixed) eqn:Hm.
-    + apply andb_prop in Hm. destruct Hm as (_ & Hf). apply negb_true_iff in Hf.
-      assert (Dr : forall a b x, dv (restore_stacks a b x) = dv x) by reflexivity.
-      split; [|split]; simpl; rewrite ?dv_deviate, ?Dr; try lia. congruence.
-    + assert (G : GInv PostJ s (handle_throw p0 (with_regs_of s3 s4))).
-      { apply (raise_inv' p0 s s1 (with_regs_of s3 s4) K); try (unfold dv in *; cbn; lia).
-        - intros F. unfold dv in *. cbn. rewrite B', Dm, B; auto.
-        - intros E. apply C. unfold dv in *. cbn in E. lia.
-        - intros k T. destruct (H k T) as (E & Tt). split; [|exact Tt].
-          destruct E as (xs & ys & kk & [e1 e2 e3] & Eb). exists xs, ys, kk. split. constructor; auto. exact Eb. }
-      exact G.
+    assert (G : GInv PostJ s (handle_throw p0 (with_regs_of s3 s4))).
+    { apply (raise_inv' p0 s s1 (with_regs_of s3 s4) K); try (unfold dv in *; cbn; lia).
+      - intros F. unfold dv in *. cbn. rewrite B', Dm, B; auto.
+      - intros E. apply C. unfold dv in *. cbn in E. lia.
+      - intros k T. destruct (H k T) as (E & Tt). split; [|exact Tt].
+        destruct E as (xs & ys & kk & [e1 e2 e3] & Eb). exists xs, ys, kk. split. constructor; auto. exact Eb. }
+    exact G.
   - split; [|split]; simpl in *; [lia | intros F; rewrite B', Dm, B; auto | intros E; exfalso; apply C'; lia].
   - split; [|split]; simpl in *; [lia | intros F; rewrite B', Dm, B; auto | auto].
 Qed.
 
 Lemma raiseE_inv : forall inrec p s s1, Ext s s1 -> ts s1 = ts s -> dv s1 = dv s ->
-  GInv PostJ s (raise lim fixed ex inrec p s1).
+  GInv PostJ s (raise lim ex inrec p s1).
 Proof. intros. apply (raiseE_inv' inrec p s s1 s1 True); auto. Qed.
 
 Lemma Chain_raiseE : forall inrec p s s2 s3 (K : Prop),
   Chain s s2 K -> dv s3 = dv s2 -> (K -> TopOK s -> Ext s s3 /\ ts s3 = ts s) ->
-  GInv PostJ s (raise lim fixed ex inrec p s3).
+  GInv PostJ s (raise lim ex inrec p s3).
 Proof.
   intros inrec p s s2 s3 K (A & B & C) D H.
   eapply (raiseE_inv' inrec p s s s3 (dv s2 = dv s)); try reflexivity; try lia.
@@ -606,19 +599,11 @@ Proof.
   - intros E T. apply H; auto.
 Qed.
 
-Lemma raiseE_deviated : forall inrec p s sd id, dv sd = dv s -> fixed = false ->
-  GInv PostJ s (raise lim fixed ex inrec p (deviate id sd)).
-Proof.
-  intros inrec p s sd id D F. eapply (raiseE_inv' inrec p s s (deviate id sd) False); try reflexivity.
-  - rewrite dv_deviate. lia.
-  - intros F'. congruence.
-  - rewrite dv_deviate. lia.
-  - intros [].
-Qed.
+
 
 (* a Go function called from a run loop *)
 Lemma native_call_inv : forall n (f : state -> state * outcome) s,
-  (forall s2, GInv PostG s2 (f s2)) -> GInv PostJ s (native_call lim fixed ex n f s).
+  (forall s2, GInv PostG s2 (f s2)) -> GInv PostJ s (native_call lim ex n f s).
 Proof.
   intros n f s Hf. unfold native_call. set (s1 := add_sp (2 + n) s).
   destruct (over lim s1).
@@ -695,7 +680,7 @@ Qed.
 
 Lemma try_dofin_inv : forall fin s s2 sx d p (K : Prop),
   Chain s s2 K -> dv sx = dv s2 -> (K -> Framed s d sx /\ snap_of d s /\ dead d) ->
-  GInv PostJ s (try_dofin lim fixed ex fin sx p).
+  GInv PostJ s (try_dofin lim ex fin sx p).
 Proof.
   intros fin s s2 sx d p K Ch D HK. unfold try_dofin.
   pose proof (run_items_inv fin sx) as G. destruct (run_items ex fin sx) as [s3 o].
@@ -755,7 +740,7 @@ Proof. intros tf M. unfold flagged. rewrite M. reflexivity. Qed.
 Lemma flagged_catch : forall tf, t_marker tf = false -> t_catch (flagged tf) = false.
 Proof. intros tf M. unfold flagged. rewrite M. reflexivity. Qed.
 
-Lemma try_node_inv : forall body cat fin hc hf s, GInv PostJ s (try_node lim fixed ex body cat fin hc hf s).
+Lemma try_node_inv : forall body cat fin hc hf s, GInv PostJ s (try_node lim ex body cat fin hc hf s).
 Proof.
   intros body cat fin hc hf s. unfold try_node.
   set (tf := new_frame false hc hf s). set (s1 := push_try false hc hf s).
@@ -877,7 +862,7 @@ Qed.
 (* ---- for-of ---- *)
 Lemma forof_loop_inv : forall next body id k s s2 sx (K : Prop),
   Chain s s2 K -> dv sx = dv s2 -> (K -> regs sx = regs (set_its (id :: its s) s)) ->
-  GInv PostJ s (forof_loop lim fixed ex next body k sx).
+  GInv PostJ s (forof_loop lim ex next body k sx).
 Proof.
   intros next body id. induction k as [|k IH]; intros s s2 sx K Ch D HK.
   - (* last round: next() reports done *)
@@ -940,7 +925,7 @@ Proof.
     + apply Chain_GInv. simpl. eapply Chain_state; eauto.
 Qed.
 
-Lemma forof_node_inv : forall id next n body ret s, GInv PostJ s (forof_node lim fixed ex id next n body ret s).
+Lemma forof_node_inv : forall id next n body ret s, GInv PostJ s (forof_node lim ex id next n body ret s).
 Proof.
   intros id next n body ret s. unfold forof_node.
   pose proof (reentry_inv 0 [] (add_sp 1 s)) as G. destruct (reentry lim ex 0 [] (add_sp 1 s)) as [s1 o].
@@ -1046,7 +1031,7 @@ Proof. intros. subst. reflexivity. Qed.
 Lemma if_false : forall (A : Type) (b : bool) (x y : A), b = false -> (if b then x else y) = y.
 Proof. intros. subst. reflexivity. Qed.
 
-Lemma gen_node_inv : forall seg s, GInv PostJ s (gen_node lim fixed ex seg s).
+Lemma gen_node_inv : forall seg s, GInv PostJ s (gen_node lim ex seg s).
 Proof.
   intros seg s. unfold gen_node. rewrite gen_enter_eq. set (sa := add_sp 2 s).
   assert (Ea : Ext s sa) by (apply Ext_same; reflexivity).
@@ -1060,7 +1045,7 @@ Proof.
   apply native_call_inv. intros. apply gen_resume_inv.
 Qed.
 
-Lemma async_node_inv : forall seg1 seg2 s, GInv PostJ s (async_node lim fixed ex seg1 seg2 s).
+Lemma async_node_inv : forall seg1 seg2 s, GInv PostJ s (async_node lim ex seg1 seg2 s).
 Proof.
   intros seg1 seg2 s. unfold async_node. rewrite gen_enter_eq. set (sa := add_sp 2 s).
   assert (Ea : Ext s sa) by (apply Ext_same; reflexivity).
@@ -1362,7 +1347,7 @@ Proof.
   intros k T. simpl. apply R. apply k. auto.
 Qed.
 
-Lemma node_step_inv : forall nd s, Inv s (node_step lim faults fixed ex lv rt nd s).
+Lemma node_step_inv : forall nd s, Inv s (node_step lim faults ex lv rt nd s).
 Proof.
   intros nd s.
   assert (WJ : forall r, GInv PostJ s r -> Inv s r).
@@ -1558,7 +1543,7 @@ Qed.
 
 Lemma node_step_api : forall nd s,
   (match nd with NCallable _ _ | NRun _ _ => True | _ => False end) ->
-  GInv PostL s (node_step lim faults fixed ex lv rt nd s).
+  GInv PostL s (node_step lim faults ex lv rt nd s).
 Proof.
   intros nd s Hnd. destruct nd; try contradiction; simpl.
   - pose proof (run_wrapped_inv lv Hlv body s) as G.
